@@ -68,6 +68,15 @@ func init() {
 			}
 		}
 		g.pf("def coll : List (String × String) :=\n  %s\n\n", leanPairList(coll))
+		// functions, calls, closures, methods, strings: what the functions model (Model/Fun.lean) was written from
+		var funs [][2]string
+		for _, n := range []string{"Ctx.funcDecl", "Ctx.paramList", "Ctx.returnExpr", "Ctx.returnType", "Ctx.funcLit", "Ctx.callExpr", "Ctx.methodExpr", "Ctx.selectorMethod",
+			"Ctx.newCoqCallTypeArgs", "Ctx.coqRecurFunc", "Ctx.exprStmt", "Ctx.stringType", "isString", "isByteSlice"} {
+			if fds[n] != nil {
+				funs = append(funs, [2]string{n, canonFunc(p, fds[n])})
+			}
+		}
+		g.pf("def funs : List (String × String) :=\n  %s\n\n", leanPairList(funs))
 		g.pf("end GooseVerif.Gen.Guards\n")
 		g.write()
 	}})
